@@ -1,0 +1,11 @@
+//go:build verif
+
+package reconciler
+
+import "context"
+
+// VerifWorkOnce runs exactly one iteration of the worker loop (Get, SyncOne,
+// requeue or Forget, Done) on the calling goroutine.
+func (w *Controller) VerifWorkOnce(ctx context.Context) bool {
+	return w.work(ctx)
+}
